@@ -548,6 +548,10 @@ func (fr *frame) loopCore(st *State, node ast.Node, label string, scanNodes []as
 		extraHavoc(st)
 	}
 	fr.assumeInvs(st, ls)
+	if !st.dead {
+		fc.obls = append(fc.obls, &Obligation{Name: fmt.Sprintf("%s/%scover.loophead[%d]", fc.name, fr.prefix, ls.ord),
+			Hyps: append([]*Term(nil), st.pc...), Goal: TTrue, Kind: "cover", Func: fc.name, Expect: "sat"})
+	}
 	head := st
 	var outs []Outcome
 	var exits []*State
